@@ -5,11 +5,13 @@ import JanetModel.Compile.SeqSpec
 namespace JanetModel.Compile
 open JanetModel.Emit JanetModel.Lang JanetModel.Bytecode.Exec JanetModel.Gen.Bytecode
 
+def fbNilOf (fb : Expr) : Bool := match fb with | .lit .nil => true | _ => false
+
 /-- constant condition: only the live branch is kept -/
 def cIfConst (rec' : Fopts → Expr → CState → Option (JSlot × CState)) (opts : Fopts) (target : JSlot) (tb fb : Expr) (k : KConst) (c3 : CState) :
     Option (JSlot × CState) :=
   let (tb', fb') := if !constTruthy k then (fb, tb) else (tb, fb)
-  let fbNil' : Bool := match fb' with | .lit .nil => true | _ => false
+  let fbNil' : Bool := fbNilOf fb'
   let c4 := pushScope c3 false false false false
   do
     let (right, c5) ← rec' opts tb' c4
@@ -43,8 +45,6 @@ def cIfJump (rec' : Fopts → Expr → CState → Option (JSlot × CState)) (opt
   if !false && !jumped && labeld ≠ labeljd then none else
   let buf2 := if jumped then modBuf buf1 labeljd (fun _ => .jump (Int.ofNat (labeld - labeljd))) else buf1
   pure ({ target with returned := target.returned || false }, { c14 with buf := buf2 })
-
-def fbNilOf (fb : Expr) : Bool := match fb with | .lit .nil => true | _ => false
 
 /-- target, condition scope, condition; then one of the two paths -/
 def cIfBody (rec' : Fopts → Expr → CState → Option (JSlot × CState)) (opts : Fopts) (cnd tb fb : Expr) (c : CState) : Option (JSlot × CState) :=
@@ -135,5 +135,18 @@ theorem cIfBody_inv (rec' : Fopts → Expr → CState → Option (JSlot × CStat
   · simp only [cIfBody, hd, Bool.true_or, if_true, Option.pure_def, Option.bind_eq_bind, Option.bind_some, Option.bind_eq_some_iff, Prod.exists] at h
     obtain ⟨cond, c3, hcond, hrest⟩ := h
     exact ⟨cslot .nil, c, cond, c3, by simp, hcond, hrest⟩
+
+
+/-- the steps of the folding path -/
+theorem cIfConst_inv (rec' : Fopts → Expr → CState → Option (JSlot × CState)) (opts : Fopts) (target : JSlot) (tb fb : Expr) (k : KConst)
+    (c3 c' : CState) (slot : JSlot) (h : cIfConst rec' opts target tb fb k c3 = some (slot, c')) :
+    ∃ right c5 c6 c7 c8, rec' opts (if constTruthy k then tb else fb) (pushScope c3 false false false false) = some (right, c5) ∧
+      ifCopy opts.drop c5 target right = some c6 ∧ popScope c6 = some c7 ∧
+      (if fbNilOf (if constTruthy k then fb else tb) then some c7 else throwaway rec' opts (if constTruthy k then fb else tb) c7) = some c8 ∧
+      popScope c8 = some c' ∧ target = slot := by
+  cases hk : constTruthy k <;> cases hd : opts.drop <;> cases hn : fbNilOf (if constTruthy k then fb else tb) <;>
+    simp only [hk, Bool.false_eq_true, if_false, if_true] at hn <;>
+    simp [cIfConst, hk, hd, hn, ifCopy, Option.bind_eq_some_iff] at h ⊢
+  all_goals exact h
 
 end JanetModel.Compile
